@@ -530,11 +530,14 @@ ASSUMPTIONS = {
 def setup():
     try:
         cargo_build("e1_layout")
+        cargo_build("e1_layout", release=True)
         cargo_build("e4_vecconv")
         cargo_build("e4_vecconv", release=True)
+        cargo_build("e4_vecconv", release=True, profile="abort")
         for c in "ABC":
             e3_build("quick", c)
         cargo_build("e5_probes")
+        cargo_build("e5_probes", release=True)
         cargo_build("probe_deps", target_dir="target_p")
         os.environ.setdefault("VERIF_SEED", "1")
         e3_miri_part("C07", dict(quick=1))("quick")
